@@ -28,12 +28,30 @@ def _g7(x):
     return format(x, ".7g")
 
 
+GRID = ["0.125", "0.25", "0.375", "0.5"]
+ALL_PATTERNS = [[GRID[(k // 4 ** j) % 4] for j in range(4)] for k in range(4 ** 4)]      # every weak ordering of four lines
+R_ALL = [16, len(SCALES), 2]
+N_ALL = prod(R_ALL)
+
+
+def body_print_all(sel: int) -> bool:
+    """thorough tier: selector = options x scale x naming; all 256 value patterns of four lines (every weak ordering, all ties) inside the path"""
+    opts, si, pdg = digits(sel, R_ALL)
+    for pat in ALL_PATTERNS:
+        if not _print_case(4, pat, opts, si, pdg):
+            return False
+    return True
+
+
 def body_print(sel: int) -> bool:
     n1, bp, opts, si, pdg = digits(sel, R_PRINT)
-    n = n1 + 1
+    return _print_case(n1 + 1, BF_PATTERNS[bp], opts, si, pdg)
+
+
+def _print_case(n, pattern, opts, si, pdg) -> bool:
     print_model, photos_kw, ascending, normalize = [(opts >> i) & 1 == 1 for i in range(4)]
     scale = SCALES[si]
-    bfs = BF_PATTERNS[bp][:n]
+    bfs = pattern[:n]
     mother, arg = ("K_S0", "K(S)0") if pdg else ("MyMother", "MyMother")
     text = f"Decay {mother}\n" + "".join(
         " ".join([bfs[i]] + LINES[i][0] + (["PHOTOS"] if LINES[i][1] else []) + [LINES[i][2]] + ([LINES[i][3]] if LINES[i][3] else [])) + ";\n"
